@@ -2,54 +2,57 @@ package uconkit
 
 import (
 	"runtime"
-	"sync"
 	"time"
 
 	"github.com/youchainhq/go-youchain/event"
 )
 
 // Collector is the only subscriber of a rig's event mux. The consensus components
-// announce votes and commits with AsyncPost (one goroutine per event); the harness
-// starts none of the package's loops, so after a step it waits until the number of
-// goroutines is back to the idle baseline (every AsyncPost goroutine has delivered
-// and exited). Events of one step are treated as a set.
+// announce votes and commits with AsyncPost (one goroutine per event, blocking on an
+// unbuffered delivery to the subscriber); the harness starts none of the package's
+// loops. Quiesce receives on the harness goroutine itself until the number of
+// goroutines is back to the idle baseline, i.e. every AsyncPost goroutine has handed
+// its event over (and it has been recorded, since recording happens on this same
+// goroutine) and exited. Events of one step are treated as a set.
 type Collector struct {
-	mu     sync.Mutex
 	events []interface{}
 	sub    *event.TypeMuxSubscription
 	base   int
-	done   chan struct{}
 }
 
 // NewCollector subscribes to the given event types and measures the idle baseline.
 func NewCollector(mux *event.TypeMux, types ...interface{}) *Collector {
-	c := &Collector{done: make(chan struct{})}
-	before := runtime.NumGoroutine()
+	c := &Collector{}
 	c.sub = mux.Subscribe(types...)
-	go func() {
-		defer close(c.done)
-		for ev := range c.sub.Chan() {
-			if ev == nil {
-				return
-			}
-			c.mu.Lock()
-			c.events = append(c.events, ev.Data)
-			c.mu.Unlock()
+	// the baseline is the smallest goroutine count seen while nothing is in flight
+	c.base = runtime.NumGoroutine()
+	for i := 0; i < 5; i++ {
+		runtime.Gosched()
+		if n := runtime.NumGoroutine(); n < c.base {
+			c.base = n
 		}
-	}()
-	c.base = before + 1
+	}
 	return c
 }
 
 // Quiesce waits for all in-flight AsyncPost goroutines; false = timed out (the case
 // must then be discarded as inconclusive, never reported as a violation).
 func (c *Collector) Quiesce() bool {
-	deadline := time.Now().Add(20 * time.Second)
+	deadline := time.Now().Add(30 * time.Second)
 	stable := 0
 	for {
+		select {
+		case ev, ok := <-c.sub.Chan():
+			if ok && ev != nil {
+				c.events = append(c.events, ev.Data)
+			}
+			stable = 0
+			continue
+		default:
+		}
 		if runtime.NumGoroutine() <= c.base {
 			stable++
-			if stable >= 2 {
+			if stable >= 3 {
 				return true
 			}
 		} else {
@@ -59,21 +62,20 @@ func (c *Collector) Quiesce() bool {
 			return false
 		}
 		runtime.Gosched()
-		time.Sleep(20 * time.Microsecond)
+		if stable == 0 {
+			time.Sleep(10 * time.Microsecond)
+		}
 	}
 }
 
 // Drain returns and clears the collected events.
 func (c *Collector) Drain() []interface{} {
-	c.mu.Lock()
-	defer c.mu.Unlock()
 	out := c.events
 	c.events = nil
 	return out
 }
 
-// Close unsubscribes and waits for the drain goroutine to exit.
+// Close unsubscribes.
 func (c *Collector) Close() {
 	c.sub.Unsubscribe()
-	<-c.done
 }
